@@ -3,6 +3,7 @@
 package c03
 
 import (
+	"encoding/json"
 	"fmt"
 	"math/rand"
 	"sync"
@@ -115,6 +116,10 @@ var RedisCfg func(c *config.Config) (func(), error)
 const step = 15 * time.Second
 
 type runner struct {
+	// what may still be replayed on this connection (unacknowledged, or acknowledged without certainty that the broker
+	// processed the acknowledgement) and what has been replayed already
+	replayCandidates map[*entry]bool
+	replaySeen       map[*entry]bool
 	replayOpen bool // on a resumed connection: no new (DUP=0) message has arrived yet
 	sc      *Scenario
 	b       *broker.Broker
@@ -310,6 +315,16 @@ func (rn *runner) handle(p *mqttx.Packet) {
 			}
 			return
 		}
+		// a replay that had to wait for room in this connection's window (or for a slow machine): a message whose
+		// acknowledgement the broker may not have processed before the cut comes again, before any new message
+		if p.Dup && rn.replayOpen && rn.replayCandidates[e] && !rn.replaySeen[e] && e.State == "done" && p.PacketID == e.ID {
+			rn.replaySeen[e] = true
+			e.State, e.Certain, e.firstTx = "received", true, false
+			rn.byID[e.ID] = e
+			rn.obs["late_replays_of_uncertain_acks"]++
+			rn.sendAck(e, true)
+			return
+		}
 		// retransmission outside the resume phase
 		if !p.Dup {
 			rn.add("retx.no_dup", fmt.Sprintf("message %s sent again without DUP (state %s certain=%v)", pl, e.State, e.Certain))
@@ -368,6 +383,11 @@ func (rn *runner) resume() {
 		}
 	}
 	seen := map[*entry]bool{}
+	rn.replayCandidates = map[*entry]bool{}
+	for _, e := range exp {
+		rn.replayCandidates[e] = true
+	}
+	rn.replaySeen = seen
 	lastOrder := 0
 	got := 0
 	var window []*entry // retransmitted on this connection, not yet acknowledged by us
@@ -383,7 +403,14 @@ func (rn *runner) resume() {
 		if need > 0 {
 			timeout = step
 		}
-		if need > 0 && len(window) >= rn.limit && len(window) > 0 && !rn.c.WaitIn(rn.inPos, 30*time.Millisecond) {
+		optionalLeft := 0
+		for _, e := range exp {
+			if e.State == "done" && !seen[e] {
+				optionalLeft++
+			}
+		}
+		// (only where the window was lowered: those scenarios use QoS 1 throughout, one PUBACK frees a slot)
+		if rn.sc.LowerRM && (need > 0 || optionalLeft > 0) && len(window) >= rn.limit && len(window) > 0 && !rn.c.WaitIn(rn.inPos, 30*time.Millisecond) {
 			// the window of this connection is full: the rest of the retransmissions can only follow once we
 			// acknowledge. Acknowledge the oldest one and go on.
 			w := window[0]
@@ -821,4 +848,21 @@ func Run(r *monitor.Run) {
 			r.Sample(sc)
 		}
 	})
+}
+
+// Replay re-runs the scenario stored in a violation file.
+func Replay(r *monitor.Run, detail []byte) {
+	var d struct{ Scenario Scenario }
+	if err := json.Unmarshal(detail, &d); err != nil || len(d.Scenario.QoS) == 0 {
+		fmt.Println("replay: no scenario in this file:", err)
+		return
+	}
+	fs, _, err := RunScenario(&d.Scenario)
+	if err != nil {
+		fmt.Println("replay: harness error:", err)
+		return
+	}
+	for _, f := range fs {
+		r.Violation(f.Sig, f.What, map[string]any{"scenario": d.Scenario, "transcript": f.Trace})
+	}
 }
